@@ -19,7 +19,9 @@ from fsa.ftn import parse_template
 from fsa.match import Affine, affine, cmp_of, dict_slot, disj_atoms, is_underscore_key, dotted
 from fsa.source import AnchorMissing, Unsupported, iter_own_nodes, stmt_key, text
 from rules.solver_common import (
+    FnView,
     SolverShape,
+    offset_source_index,
     effects_of,
     expr,
     fsic_hierarchy,
@@ -80,13 +82,15 @@ def r1_index_discipline(R) -> None:
                         f'data series written outside `for name in self.endogenous`: `{st.node.label()}`',
                         where=f'{fi.module.relpath}:{st.node.lineno}')
         allowed = {affine(expr(idx_name))}
+        view = FnView(R.repo, q, cfg)
         for (node, key, idx) in _series_loads(fi.node):
             sites += 1
             a = affine(idx)
             if a == affine(expr(idx_name)):
                 R.ok(q, f'load {key}[{text(idx)}] addresses the period being solved', trivial=True)
                 continue
-            if a == affine(expr(f'{idx_name} + offset')):
+            at = view.node_of(node)
+            if a == affine(expr(f'{idx_name} + offset')) or (at is not None and offset_source_index(view, at.id, idx, idx_name)):
                 # only as the source of the guarded offset copy
                 par_ok = False
                 for st in series_stores(cfg):
@@ -207,7 +211,7 @@ def r2_rejection_effect_free(R) -> None:
                 a_ = en.ast
                 if isinstance(a_, ast.Assign) and len(a_.targets) == 1 and isinstance(a_.targets[0], ast.Subscript) and isinstance(a_.value, ast.Subscript) \
                         and text(a_.targets[0].value) == text(a_.value.value) and text(a_.targets[0].slice) == 't' \
-                        and affine(a_.value.slice) is not None and affine(a_.value.slice) == affine(expr('t + offset')):
+                        and offset_source_index(FnView(R.repo, q, cfg), en.id, a_.value.slice):
                     what_ = 'offset-copy'  # series[t] = series[t + offset], however the series is named
                 R.violation(q, f'effect-before-reject:{cls}<-{what_}',
                             f'the up-front rejection `{cls}` at L{r.lineno} can be raised after `{en.label()}` has already changed the model',
